@@ -191,6 +191,12 @@ def generate(
             continuing=bool(continuation_data),
         ) as interpreter:
             runtime_context = interpreter.execute()
+            # write out whatever the stream still buffers while an error can still
+            # fail the run: exceptions raised later, by close(), are only echoed
+            try:
+                output_stream.commit()
+            except Exception as e:
+                raise DataGenError(f"Cannot write to output stream: {e}") from e
 
     except DataGenError as e:
         if e.filename:
